@@ -697,6 +697,16 @@ func checkPool(ctx *core.Ctx, c poolCase) {
 		return
 	}
 	ctx.CountN("pool/concurrent-calls", res.Calls)
+	for i, q := range c.Reqs {
+		for _, p := range c.Reqs[:i] {
+			if u, e1 := url.Parse(q.URL); e1 == nil {
+				if v, e2 := url.Parse(p.URL); e2 == nil && u.Host == v.Host && q.HostArg == p.HostArg && q.URL != p.URL {
+					ctx.Count("pool/request-repeats-host-with-other-url")
+					break
+				}
+			}
+		}
+	}
 	if len(res.Panics) > 0 {
 		ctx.Crash("concurrent evaluations through the pool never panic", "", c, strings.Join(res.Panics, "; "))
 	}
@@ -803,6 +813,16 @@ func genPoolCase(r *core.Rand, callers int, rounds int) poolCase {
 	var effs []string
 	for i := 0; i < nreq; i++ {
 		q, eff := genReq(r)
+		if i > 0 && r.Chance(50) {
+			// the host[:port] (and host argument) of an earlier request with another scheme / path / query:
+			// the answer for a URL must not depend on what the pool was asked about that host before
+			j := r.Intn(i)
+			if u, err := url.Parse(reqs[j].URL); err == nil && u.Host != "" {
+				q = reqT{URL: core.Pick(r, []string{"http", "https", "ftp", "ws"}) + "://" + u.Host +
+					core.Pick(r, []string{"/", "/index.html", "/a/b?x=1&y=2", "", "/path.with.dots/file.js", "/%7Euser/", "/admin/x", "/a/b?x=2"}), HostArg: reqs[j].HostArg}
+				eff = effs[j]
+			}
+		}
 		reqs = append(reqs, q)
 		effs = append(effs, eff)
 	}
